@@ -41,7 +41,20 @@ RAISERS = {
 }
 
 
-def make_env(P, servertype):
+def _incompressible_text(n):
+    import base64
+    import hashlib
+    out, h = [], b"c08"
+    while sum(len(x) for x in out) < n:
+        h = hashlib.sha256(h).digest()
+        out.append(base64.b64encode(h).decode())
+    return "".join(out)[:n]
+
+
+BIG_ANSWER = _incompressible_text(4000)     # (too large for the small MAX_MESSAGE_SIZE of those cases also when the daemon compresses its replies)
+
+
+def make_env(P, servertype, variant=None):
     log = fixture.EventLog()
 
     class LoggingDaemonObject(P.server.DaemonObject):
@@ -67,7 +80,7 @@ def make_env(P, servertype):
             log.add("exec", "mark", token)
             return "marked:" + str(token)
 
-    fx = fixture.Fixture(servertype=servertype, interface=LoggingDaemonObject, COMMTIMEOUT=0.0)
+    fx = fixture.Fixture(servertype=servertype, interface=LoggingDaemonObject, COMMTIMEOUT=0.0, variant=variant)
     fx.register(Marker(), "marker")
 
     used_tickets = set()
@@ -84,7 +97,7 @@ def make_env(P, servertype):
         if mode == "accept-unserialisable":
             return threading.Lock()
         if mode == "accept-big":
-            return "w" * 4000
+            return BIG_ANSWER
         if mode.startswith("ticket:"):
             # a validator whose decision depends on history, not only on the handshake bytes: one-time tickets
             if mode in used_tickets:
@@ -714,7 +727,10 @@ def plan(tier, seed):
 def run_shard(shard, rec):
     P = fixture.pyro()
     r = gen.rng(rec.seed, "c08", shard["i"])
-    fx, log = make_env(P, shard["servertype"])
+    # (the configuration variants the property does not depend on - compression, wire logging, detailed tracebacks, hooks on the instance -
+    # rotate over the shards, so that every variant is driven by every seed)
+    fx, log = make_env(P, shard["servertype"], variant=(shard["i"] * 3 + rec.seed) % (2 * len(fixture.VARIANTS)))
+    rec.count("fixture_variant:" + fx.variant)
     try:
         for n in range(shard["n"]):
             if rec.should_stop(12):
